@@ -3,6 +3,9 @@ C14 driver: parses the case lines that harness/c14 executes against the real com
 the specification oracle on an implementation trace (`judge` mode).
 
 Case lines (shared with harness/c14/c14.c):
+  connect ascii|telnet|console   optional, before the first operation (sendres may precede it): the kind of user.
+                            telnet = the negotiation add_messages + flush of setup_accepted_connection (bytes regenerated
+                            from the source, `Gen.connectTelnet`), one `st` line after it; console = the console user
   sendres <tok>,<tok>,...   tok = n (accept at most n>=1 bytes) | W (EWOULDBLOCK) | I (EINTR) | P (EPIPE) | E<errno>
   write <hex|->             add_message (user, bytes)
   vwrite <hex|->            add_vmessage (user, "%s", bytes)
@@ -118,13 +121,36 @@ def parseEv (line : String) : Ev :=
   | some e => e
   | none => .fault line
 
+def isSt : Ev → Bool
+  | .st .. => true
+  | .stClosed => true
+  | _ => false
+
+/-- `runFrom`, except that the state line of operations marked `false` is not shown (the harness cannot print one
+between the add_message calls that setup_accepted_connection makes itself) -/
+def runShown (s : St) : List (Op × Bool) → List Ev
+  | [] => []
+  | (op, sh) :: rest =>
+    let r := step s op
+    (if sh then r.2 else r.2.filter (fun e => !isSt e)) ++ runShown r.1 rest
+
+/-- PORT_TELNET connect: `add_message` of every negotiation string, then `flush_message` -/
+def telnetConnectOps : List (Op × Bool) :=
+  NV.Gen.C14.connectTelnet.map (fun m => (Op.write false (m.map UInt8.ofNat), false)) ++ [(Op.flush, true)]
+
 def runModel (lines : List String) : List String :=
-  let parsed := lines.map (fun l => (l, parseOpLine l))
+  let parsed : List (String × Option (List (Op × Bool))) := lines.map fun l =>
+    match toks l with
+    | ["connect", "ascii"] => (l, some [])
+    | ["connect", "console"] => (l, some [])
+    | ["connect", "telnet"] => (l, some telnetConnectOps)
+    | _ => (l, (parseOpLine l).map fun o => match o with | some op => [(op, true)] | none => [])
   let bad := parsed.filter (fun p => p.2.isNone)
   if !bad.isEmpty then bad.map (fun p => s!"bad-line {p.1}")
   else
-    let ops := parsed.filterMap (fun p => p.2.join)
-    (events (run [] ops)).map render
+    let console := lines.any (fun l => toks l == ["connect", "console"])
+    let ops := (parsed.filterMap (fun p => p.2)).flatten
+    (runShown (St.init [] console) ops).map render
 
 def runJudge (body : List String) : List String :=
   let (_input, impl) := splitJudge body
